@@ -4,6 +4,8 @@ import types
 import warnings
 from fractions import Fraction
 
+import random as pyrandom
+
 import numpy as np
 
 import common
@@ -95,7 +97,7 @@ def run(ctx):
     if ctx.replay is not None:
         syn = [ctx.replay] if ctx.replay.get("synthetic") else []
         sweeps = [ctx.replay] if ctx.replay.get("sweep") else []
-        cfgs = [ctx.replay] if not (ctx.replay.get("synthetic") or ctx.replay.get("sweep")) else []
+        cfgs = [ctx.replay] if not (ctx.replay.get("synthetic") or ctx.replay.get("sweep") or ctx.replay.get("long")) else []
     else:
         syn = [c for c in ctx.corpus if c.get("synthetic")] + [gen_syn(ctx.rng) for _ in range(200 if ctx.quick() else 3000)]
         sweeps = [{"sweep": True, "n": n, "log10scale": s} for n in ((10, 100) if ctx.quick() else (10, 50, 100, 150))
@@ -157,6 +159,52 @@ def run(ctx):
         runs = 1 + sum(1 for a, b in zip(c["labels"], c["labels"][1:]) if a != b)
         ctx.case(("syn", tuple(c["labels"]), repr(c["thetas"])), nontrivial=runs >= 2,
                  sample={"labels": c["labels"][:12], "params_per_cluster": params, "P": P_ind} if len(ctx.samples) < 3 else None)
+
+    # ---------------- LONG label sequences (tens of thousands of windows): runs that straddle, end on and start on the
+    # powers of two at which blocked / vectorised counters change course (2^12, 2^15, 2^16, 2^17); direct oracle only
+    if ctx.replay is None or ctx.replay.get("long"):
+        plans = [ctx.replay] if ctx.replay is not None else \
+            [{"long": True, "T": T_, "K": K_, "seed": ctx.rng.randrange(2 ** 31)}
+             for (T_, K_) in ([(70000, 2), (140000, 3), (9000, 3)] if ctx.quick() else
+                              [(70000, 2), (140000, 3), (9000, 3), (33000, 2), (66000, 4), (270000, 2)])]
+        for c in plans:
+            r = pyrandom.Random(c["seed"])
+            T_, K_ = c["T"], c["K"]
+            edges = [e for e in (4096, 8192, 32768, 65536, 131072, 196608, 262144) if e < T_]
+            cuts = set(r.sample(range(1, T_), r.randint(2, 9)))
+            for e in edges:
+                u = r.random()
+                if u < 0.25:
+                    cuts.add(e)                  # a switch exactly ON the edge
+                elif u < 0.5:
+                    cuts.add(e - 1)              # ... one window before it
+                else:
+                    cuts.discard(e)              # a run straddling the edge
+            labels, cur, prev_cut = [], r.randrange(K_), 0
+            for cut in sorted(cuts) + [T_]:
+                labels.extend([cur] * (cut - prev_cut))
+                prev_cut = cut
+                cur = (cur + 1 + r.randrange(K_ - 1)) % K_
+            n = 2
+            rs = np.random.RandomState(c["seed"] % 2 ** 31)
+            thetas, covs = [], []
+            for _ in range(K_):
+                a = rs.randn(n, n) * 0.3
+                thetas.append(np.eye(n) * 2 + a @ a.T)
+                b = rs.randn(n, n)
+                covs.append(b @ b.T / 4 + np.eye(n))
+            P_ind, prev = 0, None
+            for l in labels:
+                if l != prev:
+                    P_ind += int(np.sum(np.abs(thetas[l]) > 2e-5))
+                prev = l
+            got = float(cmx.bayesian_information_criterion(fake_model(labels, thetas, covs, 0)))
+            want = indep_bic(labels, thetas, covs, P_ind)
+            if not oracles.rel_close(got, want, 1e-9, 1e-9):
+                ctx.violation("impl-violation", f"BIC {got} != definition {want} for {T_} windows in {len(cuts) + 1} runs (P={P_ind})",
+                              c, {"site": "bic-value", "long": True})
+            ctx.count("long_label_sequences")
+            ctx.case(("long", T_, K_, c["seed"]), nontrivial=True)
 
     # ---------------- scale sweep: finite whenever the MRFs are positive definite
     for c in sweeps:
